@@ -401,6 +401,16 @@ def abstract_files(root):
             elif r['k'] in ('ifdef', 'ifndef', 'else', 'endif'):
                 out['inters'].append({'file': f, 'sec': f + ':' + sec + ':' + r['k'], 'atoms': [],
                                       'params': [{'k': 's', 's': r.get('s', ''), 'n': 0}]})
+    # the system topology: the molecule-type files it includes and the molecules it lists, each with its POSITION (the position
+    # is the 'atom', so the order is compared as well)
+    top_path = os.path.join(root, 'topol.top')
+    if os.path.exists(top_path):
+        top = indep_readers.read_top(open(top_path).read())
+        for k, name in enumerate(top['includes'], 1):
+            out['inters'].append({'file': 'topol.top', 'sec': 'topol.top:include', 'atoms': [k], 'params': [{'k': 's', 's': name, 'n': 0}]})
+        for k, (name, count) in enumerate(top['molecules'], 1):
+            out['inters'].append({'file': 'topol.top', 'sec': 'topol.top:molecules', 'atoms': [k],
+                                  'params': [{'k': 's', 's': name, 'n': 0}, {'k': 'n', 's': '', 'n': int(count)}]})
     pdb = indep_readers.read_pdb(open(os.path.join(root, 'cg.pdb')).read())
     for mol in pdb['molecules']:
         for a in mol:
